@@ -131,6 +131,21 @@ def find_state(current_state_machine, current_state, force_full_lookup=False):
 
     return state, current_state_machine, path
 
+def start_state_name(child_state_machine):
+    """
+    The name of the start state of a Parallel Branch or a Map ItemProcessor,
+    which has to be one of that child state machine's own states. Returns None
+    for anything else, which the event published for it reports as a
+    transition to a non-existent state.
+    """
+    if isinstance(child_state_machine, dict):
+        start_at = child_state_machine.get("StartAt")
+        states = child_state_machine.get("States")
+        if (isinstance(start_at, str) and isinstance(states, dict) and
+            start_at in states):
+            return start_at
+    return None
+
 def merge_result(data, context, result, state, output_path=None):
     """
     Boiler plate to apply both ResultPath and OutputPath (or supplied output_path)
@@ -2790,7 +2805,7 @@ class StateEngine(object):
                     if retry_timeout != None:
                         branch_info["RetryTimeout"] = retry_timeout
 
-                    context_state["Name"] = branch.get("StartAt")
+                    context_state["Name"] = start_state_name(branch)
                     context_state["EnteredTime"] = (
                         datetime.now(timezone.utc).astimezone().isoformat()
                     )
@@ -3057,7 +3072,7 @@ class StateEngine(object):
                     if retry_timeout != None:
                         branch_info["RetryTimeout"] = retry_timeout
 
-                    context_state["Name"] = item_processor.get("StartAt")
+                    context_state["Name"] = start_state_name(item_processor)
                     context_state["EnteredTime"] = (
                         datetime.now(timezone.utc).astimezone().isoformat()
                     )
